@@ -280,7 +280,8 @@ EvFinalise(e) ==
                                                    <<e.integ_tail[k][1], e.integ_tail[k][2]>>],
                            !.live = <<>>, !.fin = TRUE, !.evals = e.evals]} :
         /\ s' = post
-        /\ P("C15", "finalised_only_when_converged", ~s.above /\ ~s.fin)
+        \* (prior_sampling=True: the run is the initial live set, finalised at once by design)
+        /\ P("C15", "finalised_only_when_converged", e.prior_sampling \/ (~s.above /\ ~s.fin))
         /\ P("C15", "live_points_consumed_once", e.dead_tail = s.live /\ e.pre_live = s.live
                                                    /\ e.n_dead = Len(s.dead) + NLive /\ e.live_none)
         /\ P("C02", "finalise_schedule",
